@@ -57,3 +57,151 @@ def case_partition(case):
     except Exception as e:
         out["truth_error"] = type(e).__name__ + ": " + str(e)[:200]
     return out
+
+
+# ------------------------------------------------------------------------------------------------
+#  full analysis case: split calls, assembled system on values, Jacobian, result strings
+# ------------------------------------------------------------------------------------------------
+
+def term_to_model(term, symid):
+    """SymPy term of an expanded sum -> model Term (what the split looks at)."""
+    import sympy
+    direct, inside = {}, set()
+    for f in sympy.Mul.make_args(term):
+        if f.is_Number:
+            continue
+        if f.is_Symbol:
+            direct[f] = direct.get(f, 0) + 1
+        elif f.is_Pow and f.base.is_Symbol and f.exp.is_Integer:
+            direct[f.base] = direct.get(f.base, 0) + int(f.exp)
+        else:
+            inside |= f.free_symbols
+    return {"direct": [[symid(s), e] for s, e in direct.items() if e != 0], "inside": sorted(symid(s) for s in inside)}
+
+
+def _key(term):
+    return term.as_coeff_Mul()[1]
+
+
+def case_full(case):
+    """Traced analysis with the split calls and Jacobian expressions captured, and the assembled system evaluated
+    at a random rational point (seeded by case['pt_seed'])."""
+    import random
+    import sympy
+    from harness.core import numeval, trace, truthcheck
+    from odetoolbox.shapes import Shape
+    from odetoolbox.sympy_helpers import _is_zero
+    indict = case["indict"]
+    flags = dict(case.get("flags", {}))
+    marker = indict.get("options", {}).get("differential_order_symbol", "__d")
+    out = {"marker": marker}
+    ids = {}
+
+    def symid(s):
+        return ids.setdefault(str(s), len(ids))
+    split_calls = []
+    orig_split = Shape.split_lin_inhom_nonlin
+
+    def rec_split(expr, x, parameters=None):
+        lin, inhom, nonlin = orig_split(expr, x, parameters=parameters)
+        try:
+            ex = expr.expand()
+            terms = list(ex.args) if ex.is_Add else [ex]
+            params = list((parameters or {}).keys())
+            buckets = {}
+            for a in sympy.Add.make_args(sympy.expand(inhom)):
+                if not a.is_zero:
+                    buckets[_key(a) if not a.is_Number else sympy.Integer(1)] = "c"
+            for a in sympy.Add.make_args(sympy.expand(nonlin)):
+                if not a.is_zero:
+                    buckets[_key(a) if not a.is_Number else sympy.Integer(1)] = "n"
+            for j, s in enumerate(x):
+                for a in sympy.Add.make_args(sympy.expand(lin[j])):
+                    if not a.is_zero:
+                        buckets[_key(a * s)] = ["l", j]
+            real = []
+            for t in terms:
+                k = _key(t) if not t.is_Number else sympy.Integer(1)
+                real.append(buckets.get(k, "?") if not t.is_zero else "zero")
+            if not any(t.is_zero for t in terms) and len(split_calls) < 40:
+                split_calls.append({"payload": {"params": [symid(p) for p in params], "xs": [symid(s) for s in x],
+                                                "terms": [term_to_model(t, symid) for t in terms]},
+                                    "real": real, "terms": [str(t) for t in terms]})
+        except Exception as e:      # bridge failure is reported, never silently dropped
+            split_calls.append({"bridge_error": type(e).__name__ + ": " + str(e)[:200]})
+        return lin, inhom, nonlin
+    Shape.split_lin_inhom_nonlin = staticmethod(rec_split)
+    try:
+        tr = trace.traced_analysis(indict, stop_before_propagators=bool(case.get("stop")), **flags)
+    finally:
+        Shape.split_lin_inhom_nonlin = staticmethod(orig_split)
+    out["split_calls"] = split_calls
+    out["error"] = tr.get("error")
+    out["stopped"] = bool(tr.get("stopped"))
+    if "system" in tr:
+        sysd = tr["system"]
+        x = sysd["x"]
+        out["x"] = x
+        out["graph"] = graph_payload(tr)
+        for k in ("verdict0", "verdict1", "verdict2"):
+            if k in tr:
+                out[k] = [bool(tr[k].get(v)) for v in x]
+        # ---- values at a random point
+        rng = random.Random(case.get("pt_seed", 1))
+        A, b, c = sysd["A"], sysd["b"], sysd["c"]
+        allsyms = set(A.free_symbols) | set(b.free_symbols) | set(c.free_symbols) | {sympy.Symbol(v) for v in x}
+        try:
+            cl_rhs = truthcheck.parse_system(indict, marker)["rhs"]
+            for e in cl_rhs.values():
+                allsyms |= e.free_symbols
+        except Exception:
+            cl_rhs = None
+        pt = numeval.make_point(allsyms, rng)
+        n = len(x)
+        try:
+            vals = {"A": [[numeval.val(A[i, j], pt) for j in range(n)] for i in range(n)], "b": [numeval.val(b[i], pt) for i in range(n)],
+                    "c": [numeval.val(c[i], pt) for i in range(n)], "x": [numeval.val(sympy.Symbol(v), pt) for v in x]}
+            flat = [v for row in vals["A"] for v in row] + vals["b"] + vals["c"] + vals["x"]
+            if all(v is not None for v in flat):
+                out["values"] = {"A": [[numeval.fs(v) for v in row] for row in vals["A"]], "b": [numeval.fs(v) for v in vals["b"]],
+                                 "c": [numeval.fs(v) for v in vals["c"]], "x": [numeval.fs(v) for v in vals["x"]]}
+                if cl_rhs is not None:
+                    out["user_rhs_values"] = {v: (lambda f: None if f is None else numeval.fs(f))(numeval.val(cl_rhs[v], pt)) for v in x if v in cl_rhs}
+                subs = []
+                for s in tr.get("sub_systems", []):
+                    keep = [x.index(v) for v in s["x"]]
+                    cs = [numeval.val(s["c"][k], pt) for k in range(len(keep))]
+                    subs.append({"keep": keep, "c_sub": [None if v is None else numeval.fs(v) for v in cs]})
+                out["subs"] = subs
+                # Jacobian: expressions differentiated + final entries + independent derivative of the user's rhs
+                shape_sys = tr["shape_sys"]
+                captured = []
+                odiff = sympy.diff
+
+                def rec_diff(expr, *a, **k):
+                    captured.append(expr)
+                    return odiff(expr, *a, **k)
+                sympy.diff = rec_diff
+                try:
+                    J = shape_sys.get_jacobian_matrix()
+                finally:
+                    sympy.diff = odiff
+                out["jac_exprs"] = [None if v is None else numeval.fs(v) for v in (numeval.val(captured[i * n], pt) for i in range(n))] if len(captured) == n * n else "unexpected number of diff calls: %d" % len(captured)
+                out["J"] = [[(lambda f: None if f is None else numeval.fs(f))(numeval.val(J[i, j], pt)) for j in range(n)] for i in range(n)]
+                if cl_rhs is not None:
+                    out["J_true"] = [[(lambda f: None if f is None else numeval.fs(f))(numeval.val(odiff(cl_rhs[x[i]], sympy.Symbol(x[j])), pt)) for j in range(n)] for i in range(n)]
+                out["point"] = {str(k): str(v) for k, v in pt.items()}
+        except Exception as e:
+            out["values_error"] = type(e).__name__ + ": " + str(e)[:200]
+    if "result" in tr:
+        res = tr["result"]
+        out["solvers"] = [{"solver": s["solver"], "state_variables": list(s["state_variables"]),
+                           "update_expressions": {k: str(v) for k, v in s.get("update_expressions", {}).items()},
+                           "propagators": {k: str(v) for k, v in s.get("propagators", {}).items()},
+                           "initial_values": dict(s.get("initial_values", {})), "parameters": s.get("parameters")} for s in res]
+    try:
+        cl = truthcheck.classify(indict, marker=marker)
+        out["truth"] = {k: cl[k] for k in ("vars", "lin", "deps", "exc1", "exc2", "eligible", "expected_analytic", "has_offset", "scc", "offset")}
+    except Exception as e:
+        out["truth_error"] = type(e).__name__ + ": " + str(e)[:200]
+    return out
